@@ -100,6 +100,10 @@ func vhC05() {
 	var got []Event
 	c.SubscribeToAll(func(e Event) { got = append(got, e) })
 	srv := &Server{}
+	if verifParam("ONSESSION", 0) == 1 {
+		// the application picks the topics itself: resuming must work all the same
+		srv.OnSession = func(http.ResponseWriter, *http.Request) ([]string, bool) { return []string{DefaultTopic}, true }
+	}
 
 	for a := 0; a < attempts; a++ {
 		for next < n && ph[next] == 2*a { // published while the client is away
